@@ -135,7 +135,12 @@ func runC04(res *lp.Result) {
 						if cs.comp != nil {
 							// teach the model what the real block codec does on the chunk the limited reader delivers
 							if h, err := cs.codec.DecodeHeader(bytes.NewReader(m)); err == nil && h.Flags.Contains(primitive.HeaderFlagCompressed) {
-								chunk := m[hl:]
+								// (a mutated version byte can change the header length: use the decoded header's own)
+								hlen := h.Version.FrameHeaderLengthInBytes()
+								if hlen > len(m) {
+									hlen = len(m)
+								}
+								chunk := m[hlen:]
 								if h.BodyLength < 0 {
 									chunk = nil
 								} else if int(h.BodyLength) < len(chunk) {
